@@ -324,7 +324,7 @@ func WireHeader(r *mon.Rand, o WireHeaderOpts) (*Node, int64) {
 			if r.Bool() {
 				put(refcbor.NInt(3), refcbor.NUint(uint64(r.Intn(70000))))
 			} else {
-				put(refcbor.NInt(3), refcbor.NTstr(mon.Pick(r, "application/cose", "text/plain", "a/b")))
+				put(refcbor.NInt(3), refcbor.NTstr(mon.Pick(r, "application/cose", "text/plain", "a/b", "text/plain; charset=utf-8", "a/b;c=d")))
 			}
 		case 1:
 			put(refcbor.NInt(4), refcbor.NBstr(BytesValue(r)))
